@@ -70,7 +70,7 @@ func main() {
 					fn.WriteTo(os.Stdout)
 					continue
 				}
-				z := &Polyizer{}
+				z := &Polyizer{Inline: true}
 				fmt.Println("==", m.fnName(fn))
 				for _, b := range fn.Blocks {
 					for _, in := range b.Instrs {
